@@ -14,7 +14,8 @@ RUNS = {"quick": 12000, "thorough": 250000}
 BUDGET_S = {"quick": 60, "thorough": 900}
 RULE = ("seeded scenario scripts over the three acknowledge types x sync/async ack (with latency) x outcomes {return, exception, "
         "BaseException, timeout, no-result, save failure} x concurrent messages; ~35% of runs crash a worker at a scripted event "
-        "(biased to the gaps fn_exit -> save -> ack), restart it and redeliver un-acked messages; the ordering rule is evaluated "
+        "(biased to the gaps fn_exit -> save -> ack), restart it and redeliver un-acked messages; every sixth run shuts down with a "
+        "wait_tasks_timeout that expires while sync/async bodies are still running; the ordering rule is evaluated "
         "on the whole history, i.e. on every prefix (= a crash after every event); non-trivial = overlap or a fault fired")
 
 KNOBS = {
